@@ -123,6 +123,8 @@ type Decoded struct {
 	IndexArr    []uint32 // the committed index array
 	End         int      // offset just after the last valid commit frame
 	Uncommitted int      // entry frames after the last commit (ignored)
+	IndexFrames int      // committed index frames (a sealed segment has exactly one, an unsealed one none)
+	Frames      string   // the frame types walked, e.g. "E E C E I C" (for messages)
 }
 
 // DecodeSegment walks the frames, verifying every commit's CRC. It stops at the
@@ -140,6 +142,7 @@ func DecodeSegment(b []byte) (*Decoded, error) {
 	var pendO []uint32
 	var pendIdxStart uint64
 	var pendIdx []uint32
+	pendIdxN := 0
 	d.End = 0
 	for off+FrameHdrLen <= len(b) {
 		typ := b[off]
@@ -162,6 +165,7 @@ func DecodeSegment(b []byte) (*Decoded, error) {
 				}
 			}
 			payload := b[off+FrameHdrLen : off+FrameHdrLen+int(v)]
+			d.Frames += map[bool]string{true: "E", false: "I"}[typ == TypeEntry] + fmt.Sprintf("@%d ", off)
 			if typ == TypeEntry {
 				pendP = append(pendP, payload)
 				pendO = append(pendO, uint32(off))
@@ -171,6 +175,7 @@ func DecodeSegment(b []byte) (*Decoded, error) {
 				}
 				pendIdxStart = uint64(off + FrameHdrLen)
 				pendIdx = nil
+				pendIdxN++
 				for i := 0; i < int(v); i += 4 {
 					pendIdx = append(pendIdx, binary.LittleEndian.Uint32(payload[i:]))
 				}
@@ -180,6 +185,7 @@ func DecodeSegment(b []byte) (*Decoded, error) {
 			if crc32.Checksum(b[crcFrom:off], castagnoli) != v {
 				goto done
 			}
+			d.Frames += fmt.Sprintf("C@%d ", off)
 			off += FrameHdrLen
 			crcFrom = off
 			d.Payloads = append(d.Payloads, pendP...)
@@ -189,6 +195,8 @@ func DecodeSegment(b []byte) (*Decoded, error) {
 				d.IndexStart, d.IndexArr = pendIdxStart, pendIdx
 				pendIdxStart, pendIdx = 0, nil
 			}
+			d.IndexFrames += pendIdxN
+			pendIdxN = 0
 			d.Commits++
 			d.End = off
 		default:
